@@ -175,12 +175,12 @@ Proof. revert n i. induction l as [|x l IH]; intros [|n] [|i] H; cbn; auto; try 
 Lemma nth_skipn_add {A} (l : list A) n i d : nth i (skipn n l) d = nth (n + i) l d.
 Proof. revert l. induction n as [|n IH]; intros [|x l]; cbn; auto. destruct i; reflexivity. Qed.
 
-(* ImageBatch.narrow(dim, start, length) along the batch dimension (dim = 0 or dim = -ndim): the grids are narrowed like
-   the data *)
-Theorem narrow_method_batch_sound fl sh gs z st len :
+(* ImageBatch.narrow(dim, start, length) along the batch dimension (dim = 0 or dim = -ndim), start counted from the front or
+   (negative) from the end: the grids are narrowed like the data *)
+Theorem narrow_method_batch_sound fl sh gs z stz len :
   wf_val gshape (mkT sh (TBatch fl gs)) ->
   (z = 0 \/ z = - Z.of_nat (ndim sh))%Z ->
-  res_sound gshape [mkT sh (TBatch fl gs)] (run_op gshape gaxes (ONarrowM z st len) [mkT sh (TBatch fl gs)]).
+  res_sound gshape [mkT sh (TBatch fl gs)] (run_op gshape gaxes (ONarrowM z stz len) [mkT sh (TBatch fl gs)]).
 Proof.
   intros Hwf Hz. unfold run_op; cbn [nth t_kind t_shape].
   unfold wf_val in Hwf; cbn [t_kind t_shape] in Hwf. destruct Hwf as (HL & H4 & HF).
@@ -198,6 +198,7 @@ Proof.
   { destruct Hz as [-> | ->]; [reflexivity|]. unfold ndim; cbn [length].
     destruct (- Z.of_nat (S (length s')) <? 0)%Z eqn:E; [apply Z.eqb_eq; lia|apply Z.ltb_ge in E; lia]. }
   cbn [data_sem nth_shape nth]. rewrite Hn. cbn [nth Nat.eqb].
+  destruct (norm_start n stz) as [st|] eqn:Est; [|exact I].
   destruct (st + len <=? n) eqn:El; [|exact I]. apply Nat.leb_le in El.
   cbv zeta. rewrite Hz'.
   unfold one_kind. cbn [d_shape d_src set_nth firstn skipn app].
